@@ -256,6 +256,10 @@ def c20(tier, seed):
 CHECKS = {'C20': c20, 'C16': c16, 'C19': c19, 'C09': c09, 'C14': c14, 'C10': c10, 'C12': c12, 'C13': c13, 'C15': c15, 'C18': c18, 'C01': c01, 'C02': c02, 'C03': c03, 'C04': c04, 'C05': c05, 'C06': c06, 'C07': c07, 'C08': c08, 'C11': c11, 'C17': c17}
 
 def setup():
+    import sys as _s, os as _o
+    _s.path.insert(0, _o.path.join(build.ROOT, 'tools'))
+    import make_locale
+    make_locale.main(_o.path.join(build.BUILD, 'locale-v2'))      # the synthetic single-byte locale of the locale passes
     for m in ('plain', 'asan'):
         build.build_lib(m)
     for prog, modes in SETUP_PROGS:
@@ -265,7 +269,7 @@ def setup():
 
 SETUP_PROGS = [('e2_phrase', ['asan']), ('e2_gf', ['plain', 'asan']), ('e2_kdf', ['plain', 'asan']), ('e2_coin', ['asan']),
                ('e2_storage', ['asan']), ('e2_words', ['asan']), ('e2_prefix', ['asan']), ('e2_birthday', ['asan']), ('e2_maxlen', ['asan']),
-               ('e1_bfs', ['asan']), ('e2_crypt', ['asan']), ('e2_tape', ['asan']), ('e2_fault', ['asan']), ('e2_detect', ['asan']), ('e2_strings', ['asan', 'dbg']), ('e4_residue', ['gcc-O2', 'gcc-O0']), ('e3_sched', ['tsanrt']), ('e3_free', ['tsan']), ('e2_pairs', ['plain']), ('e2_long', ['asan'])]
+               ('e1_bfs', ['asan']), ('e2_crypt', ['asan']), ('e2_tape', ['asan']), ('e2_fault', ['asan']), ('e2_detect', ['asan']), ('e2_strings', ['asan', 'dbg']), ('e4_residue', ['gcc-O2', 'gcc-O0']), ('e3_sched', ['tsanrt']), ('e3_free', ['tsan']), ('e2_pairs', ['plain']), ('e2_long', ['asan']), ('e2_coin', ['plain']), ('e2_words', ['plain']), ('e2_maxlen', ['plain']), ('e2_phrase', ['plain']), ('e2_detect', ['plain']), ('e2_strings', ['plain'])]
 ENGINES = [
  {'name': 'E3', 'path': 'harness/e3_sched.c, harness/e3_scripts.h, harness/e3_free.c', 'serves_properties': ['C20'],
   'kind_free_text': 'stateless model checking of thread interleavings: the library is compiled with -fsanitize=thread and linked against the harness own __tsan_* callbacks; real pthreads under a baton scheduler, scheduling point at every access to the library writable static data, DFS over choice prefixes with a visited-state cache (complete, no preemption bound needed on the unchanged tree), C11 atomic operations of the library are scheduling points and happens-before edges (vector-clock race oracle), spinning threads yield and an all-spinning state is a violation, a harness too large at access granularity is completed at synchronisation granularity; race, serial-equivalence and progress oracles; plus a separate free-running real-TSan pass'},
